@@ -9,7 +9,7 @@ import zlib
 
 from webob.byterange import ContentRange
 from webob.cachecontrol import CacheControl, serialize_cache_control
-from webob.cookies import Cookie, make_cookie
+from webob.cookies import _parse_cookie, make_cookie
 from webob.datetime_utils import (
     parse_date_delta,
     serialize_date_delta,
@@ -1123,20 +1123,24 @@ class Response:
 
         if not existing and not strict:
             return
-        cookies = Cookie()
-
-        for header in existing:
-            cookies.load(header)
 
         if isinstance(name, str):
             name = name.encode("utf8")
 
-        if name in cookies:
-            del cookies[name]
-            del self.headers["Set-Cookie"]
+        def sets_name(header):
+            # a Set-Cookie header sets the cookie named by its first pair
+            return next((key for key, _ in _parse_cookie(header)), None) == name
 
-            for m in cookies.values():
-                self.headerlist.append(("Set-Cookie", m.serialize()))
+        if any(sets_name(header) for header in existing):
+            # remove the headers of this cookie only; parsing and serializing
+            # the other ones again would lose whatever is not a name=value
+            # pair (secure, HttpOnly, with them a valid SameSite=None) and
+            # their order
+            self.headerlist[:] = [
+                (key, value)
+                for key, value in self.headerlist
+                if not (key.lower() == "set-cookie" and sets_name(value))
+            ]
         elif strict:
             raise KeyError("No cookie has been set with the name %r" % name)
 
